@@ -30,7 +30,7 @@ def run(tier):
     if res["ok"] and c.get("vectors", 0) != res["generated"] - c.get("message_lists", 0):
         chk.tool_error("vector count %s differs from TLC's transitions %s - %s initial states"
                        % (c.get("vectors"), res["generated"], c.get("message_lists")))
-    for need in ("dec_msg", "dec_needmore", "reads_emitting_2plus"):
+    for need in ("dec_expect_msg", "dec_expect_needmore", "reads_emitting_2plus"):
         if not c.get(need):
             chk.tool_error("vacuous replay: no %s vectors" % need)
     chk.exhaustive = True
@@ -50,23 +50,38 @@ def run(tier):
                     "header, one octet before/after every frame end, seeded random with maximum chunk 3..70000}; non-trivial = more "
                     "than one chunk or message, distinct by (sizes, chunking)" % ("1 MiB" if tier == "thorough" else "70 000 octets"))
 
+    # binding self-test: the ideal record for a stream (what the specification demands), then one corruption of it;
+    # built from the record's inputs only, so it exists even when the code under test misbehaves
+    def ideal(r):
+        r = json.loads(json.dumps(r))
+        exp = F.e2e_expected(r)
+        steps = []
+        for i, j in enumerate(exp, 1):
+            if steps and steps[-1][0] == j:
+                steps[-1][1] = i
+            else:
+                steps.append([j, i])
+        r["steps"], r["late"] = steps, False
+        r["fin"] = {d: [m["tok"] for m in r["msgs"] if m["d"] == d] for d in ("s", "b", "c")}
+        return r
+
     def later(r):
-        if len(r["steps"]) >= 2 and r["nchunks"] > r["steps"][0][0]:
-            r = json.loads(json.dumps(r))
+        r = ideal(r)
+        if len(r["steps"]) >= 2 and r["nchunks"] > r["steps"][0][0] and r["steps"][1][0] > r["steps"][0][0] + 1:
             r["steps"][0][0] += 1          # first message reported one chunk later than its last octet
             return r
         return None
 
     def earlier(r):
+        r = ideal(r)
         if len(r["steps"]) >= 2 and r["steps"][1][0] - r["steps"][0][0] >= 2:
-            r = json.loads(json.dumps(r))
             r["steps"][1][0] -= 1          # second delivery reported one chunk before its last octet
             return r
         return None
 
     def reordered(r):
+        r = ideal(r)
         if len(r["fin"]["s"]) >= 3 and r["fin"]["s"][0] != r["fin"]["s"][1]:
-            r = json.loads(json.dumps(r))
             r["fin"]["s"][0], r["fin"]["s"][1] = r["fin"]["s"][1], r["fin"]["s"][0]
             return r
         return None
